@@ -645,7 +645,7 @@ func main() {
 			if tier == "thorough" {
 				return 17 * time.Minute
 			}
-			return 75 * time.Second
+			return 4 * time.Minute
 		},
 		Run: run, Replay: replay,
 		Evidence: func(m *lib.Merged) map[string]any {
